@@ -39,6 +39,7 @@ type Contract struct {
 	Loops    map[int][]*Clause
 	Modifies []string
 	Decreases *Clause
+	CallbackInv []*Clause
 	ModFn    string
 	Inline   bool
 	Pure     bool
@@ -68,7 +69,7 @@ type ContractSet struct {
 	// per package: extra Go source from the generator
 }
 
-var kwRe = regexp.MustCompile(`^(pred|func|ext|iface|lemma|requires|ensures|modifies|loop|inline|pure|trusted|opaque|serves|uses|maypanic|attr|decreases)\b`)
+var kwRe = regexp.MustCompile(`^(pred|func|ext|iface|lemma|requires|ensures|modifies|loop|inline|pure|trusted|opaque|serves|uses|maypanic|attr|decreases|callbackinv)\b`)
 
 // parseContractComments extracts contracts from the //@ lines of a file.
 func parseContractComments(fset *token.FileSet, f *ast.File, pkgPath string) ([]*Contract, error) {
@@ -182,6 +183,10 @@ func parseContractComments(fset *token.FileSet, f *ast.File, pkgPath string) ([]
 					label, _, e := splitLabel(strings.TrimSpace(r2[len(kind):]))
 					cl := &Clause{Kind: kind, Label: label, Expr: e, Loop: n, Line: where}
 					cur.Loops[n] = append(cur.Loops[n], cl)
+					lastClause = cl
+				case "callbackinv":
+					cl := &Clause{Kind: "callbackinv", Expr: rest, Line: where}
+					cur.CallbackInv = append(cur.CallbackInv, cl)
 					lastClause = cl
 				case "decreases":
 					cl := &Clause{Kind: "decreases", Expr: rest, Line: where}
@@ -478,6 +483,10 @@ func rewriteParens(s string) (string, error) {
 			inner := s[i+1 : j]
 			isOld := c == '(' && strings.HasSuffix(strings.TrimRight(b.String(), " "), "old") && !endsWithLongerIdent(b.String(), "old")
 			parts := splitTop(inner, ',')
+			if c == '(' && findTop(inner, "::", false) >= 0 {
+				// a parenthesised quantified formula (its binder list may contain commas)
+				parts = []string{inner}
+			}
 			var rs []string
 			for _, p := range parts {
 				if strings.TrimSpace(p) == "" {
@@ -564,6 +573,15 @@ type vcSeq[T any] []T
 func vcElemsOf[T any](s []T) vcSeq[T]   { return append(vcSeq[T](nil), s...) }
 func vcOff[T any](s []T) int             { return 0 }
 func vcSeqAt[T any](q vcSeq[T], i int) T { return q[i] }
+func vcSameMap[K comparable, V any](a, b map[K]V) bool {
+	panic("vc: map identity is a specification-only notion")
+}
+func vcHas[K comparable, V any](m map[K]V, k K) bool { _, ok := m[k]; return ok }
+
+// vcSet is a mathematical set of keys (the visited set of a map iteration).
+type vcSet[K comparable] map[K]bool
+
+func vcIn[K comparable](s vcSet[K], k K) bool { return s[k] }
 func vcMapSeq[T any](f func(int) T) vcSeq[T] { panic("vc: unbounded comprehension evaluated at run time") }
 func vcIte[T any](c bool, a, b T) T {
 	if c {
@@ -763,6 +781,10 @@ func (g *genCtx) genContract(c *Contract, lp interface{}, out *strings.Builder) 
 	}
 	base := sanitize(strings.TrimPrefix(strings.TrimPrefix(c.Key, "iface:"), c.PkgPath+"."))
 	var fd *ast.FuncDecl
+	if (c.Kind == "func") && len(c.Requires)+len(c.Ensures)+len(c.Loops)+len(c.Modifies)+len(c.CallbackInv) == 0 && c.Decreases == nil {
+		// flags only (inline / opaque / trusted): nothing to generate
+		return nil
+	}
 	switch c.Kind {
 	case "func", "lemma":
 		nm := strings.TrimPrefix(c.Key, c.PkgPath+".")
@@ -823,6 +845,11 @@ func (g *genCtx) genContract(c *Contract, lp interface{}, out *strings.Builder) 
 	}
 	for i, cl := range c.Ensures {
 		if err := emit(cl, fmt.Sprintf("vc_post_%s_%d", base, i), all, "bool"); err != nil {
+			return err
+		}
+	}
+	for i, cl := range c.CallbackInv {
+		if err := emit(cl, fmt.Sprintf("vc_cbinv_%s_%d", base, i), params, "bool"); err != nil {
 			return err
 		}
 	}
@@ -1072,6 +1099,16 @@ func (g *genCtx) localsFor(expr string, loop ast.Stmt, fd *ast.FuncDecl, info *t
 		if id == "ridx" {
 			names = append(names, "ridx")
 			typs = append(typs, "int")
+			continue
+		}
+		if id == "rvisited" {
+			// visited set of a range-over-map loop: key type from the ranged expression
+			if rs, ok := loop.(*ast.RangeStmt); ok {
+				if mt, ok := info.TypeOf(rs.X).Underlying().(*types.Map); ok {
+					names = append(names, "rvisited")
+					typs = append(typs, "vcSet["+g.typeStr(mt.Key())+"]")
+				}
+			}
 			continue
 		}
 		if isBoundIn(clean, id) {
